@@ -90,3 +90,41 @@ CONFIG['C12'] = dict(unit='range', allowed=RANGE_ALLOWED,
         {'obligation': 'lemma_partition', 'clause': 'the two views cover every combo of the range exactly once'},
     ],
     search=[['c12-search', '{seed}', '{n}']], search_n={'quick': 300000, 'thorough': 3000000})
+
+
+# ---------------------------------------------------------------------------------------------------
+# multi-part properties
+from . import multi
+
+EVAL_ALLOWED = [r'^external_body pub const (REF_|AS_)']
+
+
+def _v(unit, allowed, relevant=lambda f: True):
+    return lambda tier: multi.verus_part(unit, allowed, relevant, tier)
+
+
+MULTI = {}
+MULTI['C11'] = dict(
+    parts=[_v('eval', EVAL_ALLOWED, lambda f: f != 'MadeHand::hand_type'),
+           _v('showdown', CONFIG['C03']['allowed']),
+           _v('iter', ITER_ALLOWED)],
+    assumptions=[
+        'L11a (Verus, unit EVAL): class7(relabel(cards, p)) == class7(cards) for every suit permutation p, and class7 is invariant under swapping two positions; with C01\'s contract the real evaluator is suit- and order-blind',
+        'L11b (Verus, unit SHOWDOWN): winner flags are determined by the strengths alone and follow the players under any reordering (lemma_flags_follow over C03\'s postcondition); lemma_some_winner + winner_len == number of flags: the k winners\' shares of 1/k are k in number',
+        'L11d / counting step NOT mechanised: that suit relabelling and player reordering carry the set of legal deals bijectively (the deck order changes within a rank, so positions are permuted), hence equal tallies from the flag equalities, is a paper argument over C02\'s stepper contract',
+        'the tallies themselves are computed by the caller (README / examples), not by the crate; 1/k shares are floating-point in the examples and their sum is not modelled',
+    ] + ITER_ASSUME[:3],
+    samples=[
+        {'obligation': 'lemma_class7_relabel', 'clause': 'is_perm(p, q) && cards.len() == 7 ==> class7(relabel(cards, p)) == class7(cards)'},
+        {'obligation': 'lemma_class7_swap', 'clause': 'class7(cards.update(i, cards[j]).update(j, cards[i])) == class7(cards)'},
+        {'obligation': 'lemma_flags_follow', 'clause': 'is_showdown_of(sd1, ..) && is_showdown_of(sd2, ..) && strengths_follow(.., pi, inv) ==> forall i. sd2.players[i].win == sd1.players[pi(i)].win'},
+    ],
+    not_decided=['equality of whole tallies (the bijection between the two enumerations) is argued on paper, see assumptions'],
+    search=[['c11-search', '{seed}', '{n}']], search_n={'quick': 400, 'thorough': 4000})
+
+
+# failing-input searches of properties whose plugins live elsewhere (used by vcheck's fallback)
+EXTRA_SEARCH = {
+    'C13': dict(search=[['card-check', 'c13']]),
+    'C14': dict(search=[['card-check', 'c14']]),
+}
